@@ -98,12 +98,58 @@ def local_value(fi, name, use_stmt=None):
     if name in _param_names(fi):
         return None
     stores = _name_stores(fi, name)
+    if len(stores) == 2 and all(isinstance(x, ast.Name) for x in stores):
+        # ``if isinstance(t, bytes): name = t / else: name = t.encode(cs, ..)``: one value, the encoded form of ``t``
+        enc = _encoded_arms(fi, [stmt_of(fi.mod, x) for x in stores], lambda s_: s_.value if isinstance(s_, ast.Assign) and
+                            len(s_.targets) == 1 and isinstance(s_.targets[0], ast.Name) and s_.targets[0].id == name else None)
+        if enc is not None:
+            st, val = enc
+            return _dominating_value(fi, st, val, use_stmt)
     if len(stores) != 1 or not isinstance(stores[0], ast.Name):
         return None
     st = stmt_of(fi.mod, stores[0])
     if not isinstance(st, ast.Assign) or not any(t is stores[0] for t in st.targets):
         return None
     val = st.value
+    return _dominating_value(fi, st, val, use_stmt)
+
+
+def strip_encode(e):
+    """``x.encode(cs, ..)`` -> ``x`` (the text a body expression encodes)."""
+    while isinstance(e, ast.Call) and isinstance(e.func, ast.Attribute) and e.func.attr == 'encode' and \
+            (e.args or any(k.arg in ('encoding', 'errors') for k in e.keywords)):
+        e = e.func.value
+    return e
+
+
+def _encoded_arms(fi, stmts, value_of):
+    """Two statements that are the two arms of ``if isinstance(T, bytes): <store T> / else: <store T.encode(..)>`` (each arm
+    exactly that statement): -> (the if statement, the encode call); None otherwise.  ``value_of(stmt)`` gives the stored
+    expression of an arm (or None)."""
+    if len(stmts) != 2:
+        return None
+    pa, pb = fi.mod.parents.get(stmts[0]), fi.mod.parents.get(stmts[1])
+    if pa is not pb or not isinstance(pa, ast.If) or len(pa.body) != 1 or len(pa.orelse) != 1:
+        return None
+    t = pa.test
+    neg = False
+    if isinstance(t, ast.UnaryOp) and isinstance(t.op, ast.Not):
+        t, neg = t.operand, True
+    if not (isinstance(t, ast.Call) and isinstance(t.func, ast.Name) and t.func.id == 'isinstance' and len(t.args) == 2 and
+            isinstance(t.args[0], ast.Name) and norm(t.args[1]) == 'bytes'):
+        return None
+    x = t.args[0].id
+    raw_arm, enc_arm = (pa.orelse[0], pa.body[0]) if neg else (pa.body[0], pa.orelse[0])
+    rv, ev = value_of(raw_arm), value_of(enc_arm)
+    if rv is None or ev is None or not (isinstance(rv, ast.Name) and rv.id == x):
+        return None
+    if not (isinstance(ev, ast.Call) and isinstance(ev.func, ast.Attribute) and ev.func.attr == 'encode' and
+            isinstance(ev.func.value, ast.Name) and ev.func.value.id == x):
+        return None
+    return pa, ev
+
+
+def _dominating_value(fi, st, val, use_stmt):
     if use_stmt is None or use_stmt is st:
         return val if use_stmt is None else None
     cfg = cfg_of(fi)
@@ -1089,9 +1135,15 @@ def check_adapt(rep, repo, err, base, msm, ad=None):
                 ct.append((s, 'header'))
             elif norm(t) in ('self.content_type', 'self.mimetype'):
                 ct.append((s, norm(t)))
+    if len(data) == 2:
+        # the body stored as bytes: ``if isinstance(t, bytes): self.data = t / else: self.data = t.encode(cs, ..)`` is one
+        # statement setting the body to (the encoded form of) ``t``
+        enc = _encoded_arms(ad, [d[0] for d in data], lambda s_: dict((id(a), b) for a, b in data).get(id(s_)))
+        if enc is not None:
+            data = [enc]
     if len(data) != 1 or len(ct) != 1:
         raise AnalysisError('adapt: the statements setting the body (%d) and the Content-Type (%d) were not found' % (len(data), len(ct)))
-    dv = expand_expr(ad, data[0][1], data[0][0], keep=(fv, mp))
+    dv = strip_encode(expand_expr(ad, strip_encode(data[0][1]), data[0][0], keep=(fv, mp)))
     ok_body = is_serialiser_call(dv)
     cv = expand_expr(ad, ct[0][0].value, ct[0][0], keep=(fv, mp))
     if ct[0][1] == 'self.mimetype':
@@ -1512,7 +1564,8 @@ def rule_a(rep, repo, err, base, fam):
             ok = origin is value_origin(init, cs_[0].value)[0]
     rep.check('R09.a', fkey(init, 'status=self.code'), ok, 'the response status is the instance code (given code, else the class code)' if ok else
               why, err, init.node)
-    ok = arg('response') == 'self.to_text()' and arg('mimetype') == 'DEFAULT_MIME'
+    body_arg = norm(strip_encode(expand_expr(init, kw['response'], sst))) if 'response' in kw else None
+    ok = body_arg == 'self.to_text()' and arg('mimetype') == 'DEFAULT_MIME'
     rep.check('R09.a', fkey(init, 'default body'), ok, 'the default body is the plain-text rendering, labelled DEFAULT_MIME' if ok else
               'the default body / mimetype pair of HTTPException changed', err, init.node)
     check_constructor_order(rep, repo, err, base, init, icfg)
